@@ -166,8 +166,12 @@ class ContractTracer:
             return
         self.calls += 1
         arg0 = args[0] if args else kwargs.get(self.param0)
-        caller = it.call_stack[-1] if it.call_stack else None
+        # the finding is attributed to the ENTRY POINT under analysis (outermost frame), not to whichever private helper happens to
+        # contain the call: extracting the contraction into a shared helper does not make it a different finding
+        caller = it.call_stack[0] if it.call_stack else None
         where = caller.where if caller is not None else "?"
+        if it.call_stack:
+            self.__dict__.setdefault("observed_callers", set()).add(it.call_stack[-1].where)
         desc = describe_lapack_arg(arg0)
         br = f" [{self.branch}]" if self.branch else ""
         if desc is None:
